@@ -331,6 +331,7 @@ type Universe struct {
 type ghostFieldDecl struct {
 	name string
 	sort Sort
+	typ  types.Type // Go type when the ghost field holds a Go value (e.g. a pointer), else nil
 }
 
 func NewUniverse() *Universe {
@@ -426,7 +427,7 @@ func (u *Universe) structSort(named *types.Named, st *types.Struct) Sort {
 		si.fields = append(si.fields, fieldInfo{name: f.Name(), acc: fmt.Sprintf("f_%s_%s", key, fieldAccName(st, i)), sort: fs, typ: f.Type()})
 	}
 	for _, g := range u.ghostFlds[key] {
-		si.fields = append(si.fields, fieldInfo{name: "#" + g.name, acc: "g_" + key + "_" + sanitize(g.name), sort: g.sort, ghost: true})
+		si.fields = append(si.fields, fieldInfo{name: "#" + g.name, acc: "g_" + key + "_" + sanitize(g.name), sort: g.sort, typ: g.typ, ghost: true})
 	}
 	u.structList = append(u.structList, si) // dependencies were appended first (post-order)
 	return si.sort
